@@ -139,6 +139,23 @@ class _Blank(ast.NodeTransformer):
         return n
 
 
+def _inner_bound(node) -> set:
+    """names bound by lambdas and comprehensions inside node: private to them, so never part of a signature"""
+    out = set()
+    for n in ast.walk(node):
+        if isinstance(n, ast.Lambda):
+            a = n.args
+            out |= {x.arg for x in a.posonlyargs + a.args + a.kwonlyargs}
+            if a.vararg:
+                out.add(a.vararg.arg)
+            if a.kwarg:
+                out.add(a.kwarg.arg)
+        elif isinstance(n, (ast.ListComp, ast.SetComp, ast.DictComp, ast.GeneratorExp)):
+            for g in n.generators:
+                out |= {x.id for x in ast.walk(g.target) if isinstance(x, ast.Name)}
+    return out
+
+
 def _head_only(stmt):
     """compound statements are reduced to their header (the body is somebody else's business)"""
     import copy
@@ -178,14 +195,47 @@ def signatures(fn, nested: bool) -> list:
             mark_path = _path_to(head, node)
             cp = copy.deepcopy(head)
             mark = _follow(cp, mark_path) if mark_path is not None else None
-            cp = _Blank(names, mark).visit(cp)
+            cp = _Blank(names | _inner_bound(cp), mark).visit(cp)
             try:
                 txt = ast.unparse(cp)
             except Exception:  # noqa: BLE001
                 txt = ast.dump(cp)
             sig = hashlib.sha1(" ".join(txt.split()).encode()).hexdigest()[:12]
-        out.append((name, sig))
+        out.append((name, sig, _usage_sig(fn, name, names)))
     return out
+
+
+def _usage_sig(fn, name, names) -> str:
+    """how the local is used: the multiset of (headers of the) statements it occurs in, it marked, every other local blanked"""
+    import copy
+    texts = []
+    for st in own_nodes_ordered(fn):
+        if not isinstance(st, ast.stmt):
+            continue
+        head = _head_only(st)
+        if not any(isinstance(n, ast.Name) and n.id == name for n in ast.walk(head)):
+            continue
+        cp = copy.deepcopy(head)
+        inner = _inner_bound(cp)
+
+        class M(ast.NodeTransformer):
+            def visit_Name(self, n):
+                if n.id == name:
+                    return ast.Name(id="__THIS__", ctx=n.ctx)
+                if n.id in names or n.id in inner:
+                    return ast.Name(id="_", ctx=n.ctx)
+                return n
+
+            def visit_arg(self, n):
+                if n.arg in inner:
+                    n.arg = "_"
+                return n
+        cp = M().visit(cp)
+        try:
+            texts.append(" ".join(ast.unparse(cp).split()))
+        except Exception:  # noqa: BLE001
+            texts.append(ast.dump(cp))
+    return hashlib.sha1("\n".join(sorted(texts)).encode()).hexdigest()[:10]
 
 
 def _path_to(root, target):
@@ -314,31 +364,58 @@ def functions_with_qualnames(tree: ast.Module):
 
 
 def align(cur: list, ref: list) -> dict:
-    """{current name: reference name or None}"""
+    """{current name: reference name or None}.  cur / ref: [(name, binding signature, usage signature)].
+    Same binding signature: a unique candidate on both sides is the counterpart; among several, first the one with
+    the same usage signature, then the one that kept its name; what is still ambiguous stays unmatched (a wrong guess
+    would put a rule's name on a variable with another role)."""
     from collections import defaultdict
-    by_sig = defaultdict(list)
-    for name, sig in ref:
-        by_sig[sig].append(name)
-    used, out = set(), {}
-    taken = defaultdict(int)
-    for name, sig in cur:
-        cands = by_sig.get(sig, [])
-        k = taken[sig]
-        if k < len(cands):
-            out[name] = cands[k]
-            used.add(cands[k])
-            taken[sig] += 1
-        else:
-            out[name] = None
-    left_cur = [n for n, _ in cur if out[n] is None]
-    left_ref = [n for n, _ in ref if n not in used]
+    cur = [(c + (None,))[:3] for c in cur]
+    ref = [(tuple(r) + (None,))[:3] for r in ref]
+    out = {n: None for n, _, _ in cur}
+    used = set()
+    rby, cby = defaultdict(list), defaultdict(list)
+    for n, s_, u in ref:
+        rby[s_].append((n, u))
+    for n, s_, u in cur:
+        cby[s_].append((n, u))
+    for sig, cs in cby.items():
+        rs = [x for x in rby.get(sig, [])]
+        if not rs:
+            continue
+        if len(cs) == 1 and len(rs) == 1:
+            out[cs[0][0]] = rs[0][0]
+            used.add(rs[0][0])
+            continue
+        cs_left, rs_left = list(cs), list(rs)
+        # same usage
+        for c in list(cs_left):
+            m = [r for r in rs_left if r[1] is not None and r[1] == c[1]]
+            if len(m) == 1 and sum(1 for c2 in cs_left if c2[1] == c[1]) == 1:
+                out[c[0]] = m[0][0]
+                used.add(m[0][0])
+                cs_left.remove(c)
+                rs_left.remove(m[0])
+        # kept its name
+        for c in list(cs_left):
+            m = [r for r in rs_left if r[0] == c[0]]
+            if m:
+                out[c[0]] = m[0][0]
+                used.add(m[0][0])
+                cs_left.remove(c)
+                rs_left.remove(m[0])
+        # identical on both sides in number and (lacking usage information) in order: the unchanged function
+        if cs_left and len(cs_left) == len(rs_left) and all(c[1] is None or r[1] is None for c, r in zip(cs_left, rs_left)):
+            for c, r in zip(cs_left, rs_left):
+                out[c[0]] = r[0]
+                used.add(r[0])
+    left_cur = [n for n, _, _ in cur if out[n] is None]
+    left_ref = [n for n, _, _ in ref if n not in used]
     # a local that kept its name corresponds to itself
     for n in list(left_cur):
         if n in left_ref:
             out[n] = n
             left_cur.remove(n)
             left_ref.remove(n)
-    # no positional pairing of what is left: a wrong guess would put a rule's name on a variable with another role
     return out
 
 
@@ -361,9 +438,8 @@ def translate_module(tree: ast.Module, modname: str, stats: Optional[dict] = Non
                 continue
             cur = signatures(fn, nested)
             m = align(cur, [tuple(x) for x in r])
-            refnames = {x[0] for x in r}
             mapping, k = {}, 0
-            for name, _ in cur:
+            for name, _, _ in cur:
                 tgt = m.get(name)
                 if tgt is None:
                     if is_new_name(name):
@@ -439,3 +515,14 @@ def unknown_locals(fn, modname: str, qual: str) -> Optional[set]:
             for g in sub.generators:
                 comp |= {x.id for x in ast.walk(g.target) if isinstance(x, ast.Name)}
     return {n for n in _all_local_names(fn) if n not in known and n not in comp}
+
+
+def known_locals(modname: str, qual: str) -> set:
+    """names the reference has for the function `qual` and the functions nested in it (locals, nested defs, their parameters)"""
+    ref = reference().get(modname) or {}
+    known = set()
+    for q, lst in ref.items():
+        if q == qual or q.startswith(qual + ".<locals>.") or q.startswith(qual + "#"):
+            known |= {x[0] for x in lst}
+            known.add(q.rsplit(".", 1)[-1].split("#")[0])
+    return known
